@@ -444,11 +444,30 @@ Proof.
     exact (A n k c Hs).
 Qed.
 
-(* ---- power loss at any point of a history that keeps the fsync defaults and deletes nothing ---- *)
+(* delete_objects under power loss: the unlinks and the committed DELETE survive, nothing else changes *)
+Lemma delete_always_pl w l ks : Inv (power_loss w) -> pending l = [] ->
+  always (fun w' => Inv (power_loss w')) (w, l) (p_delete w ks).
+Proof.
+  clear H_inj. intros HP Hp. unfold p_delete.
+  assert (Hun : forall us s, Inv (power_loss (fst s)) -> always (fun w' => Inv (power_loss w')) s (map EUnlinkLoose us)).
+  { induction us as [|u t IH]; intros s Hs; cbn [map]; [apply always_nil; exact Hs|].
+    apply always_cons; [exact Hs|]. destruct s as [w0 l0]. cbn [apply_ev]. apply IH. cbn [fst] in *.
+    change (set_loose w0 (adel N.eqb (loose w0) u)) with (unlink_world w0 u). rewrite pl_unlink. apply (Inv_unlink H inflate). exact Hs. }
+  apply always_app; [apply Hun; exact HP|].
+  pose proof (Hun ks (w, l) HP (length (map EUnlinkLoose ks))) as Hend. rewrite firstn_all in Hend.
+  destruct (unlinks_frame ks (w, l)) as (_ & _ & Hpe). cbn [snd] in Hpe.
+  destruct (run_events (w, l) (map EUnlinkLoose ks)) as [w1 l1]. cbn [fst snd] in *.
+  apply always_cons; [exact Hend|]. cbn [apply_ev].
+  apply always_cons; [exact Hend|]. cbn [apply_ev pending set_pending]. rewrite Hpe, Hp. cbn [app fold_left].
+  apply always_nil. cbn [fst].
+  change (power_loss (set_db w1 (apply_sql (db w1) (SDelete ks)))) with (set_db (power_loss w1) (apply_sql (db (power_loss w1)) (SDelete ks))).
+  apply (Inv_delete H inflate). exact Hend.
+Qed.
+
+(* ---- power loss at any point of a history that keeps the fsync defaults  ---- *)
 Definition fsync_on (o : opn) : bool :=
   match o with
   | OPack _ _ fs _ | OTopack _ _ _ _ fs | OImport _ _ _ fs => fs
-  | ODelete _ => false
   | _ => true
   end.
 
@@ -461,6 +480,7 @@ Proof.
     exact (proj1 (proj2 (proj2 (pack_one_always H inflate H_inj w l id objs true clean HI Hp A B C m)) eq_refl HP)).
   - subst fs. intros m. exact (proj1 (proj2 (proj2 (add_to_pack_always H inflate H_inj w l id objs nh twice true HI Hp Hpre m)) eq_refl HP)).
   - subst fs. intros m. exact (proj1 (proj2 (proj2 (import_always H inflate H_inj w l bs nh twice true HI Hp Hpre m)) eq_refl HP)).
+  - exact (delete_always_pl w l ks HP Hp).
   - intros m. exact (proj1 (proj2 (proj2 (clean_always H inflate w l true vacuum order HI Hp m)) eq_refl HP)).
   - destruct Hpre as (Hid & Hno & [(Hne & Hobjs & Hcov)|(He & ->)]).
     + intros m. exact (proj1 (proj2 (proj2 (repack_always H inflate H_inj w id objs HI Hid Hno Hobjs Hcov l true Hp Hne m)) eq_refl HP)).
